@@ -28,6 +28,18 @@ def _concrete(x):
 _S = {'paths': 0, 'nt': 0, 'keys': set(), 'samples': []}
 
 
+def _clean(x):
+    """replace every leaf that is not a plain concrete value (i.e. still symbolic on this path) by '*'"""
+    t = type(x)
+    if t in _PRIM:
+        return x
+    if t in (list, tuple):
+        return [_clean(y) for y in x]
+    if t is dict:
+        return {(k if type(k) is str else '*'): _clean(v) for k, v in x.items()}
+    return '*'
+
+
 def note(nontrivial, sample=None):
     """nontrivial: plain bool/int computed from concrete values only (list lengths etc.).
     sample: small JSON-able description made of concrete values only."""
@@ -42,8 +54,8 @@ def _note(nontrivial, sample):
         _S['paths'] += 1
         if type(nontrivial) not in (bool, int):
             nontrivial = True
-        if sample is not None and not _concrete(sample):
-            sample = None
+        if sample is not None:
+            sample = _clean(sample)
         if nontrivial:
             if sample is not None:
                 key = json.dumps(sample, sort_keys=True, default=repr)
